@@ -16,7 +16,7 @@ def _is_call_to(n, name):
 
 def main_loop(repo):
     """The character loop of lexer(): ``for i, char in enumerate(s)``."""
-    fn = repo.function("lexer", "lexer")
+    fn = repo.full_function("lexer", "lexer")
     params = [a.arg for a in fn.args.args]
     if not params:
         raise AnalysisError("lexer() has no parameters")
@@ -257,7 +257,7 @@ def rule_lazy(repo, res):
             elif isinstance(p, ast.Call) and isinstance(p.func, ast.Name) and p.func.id in repo.module("lexer").functions \
                     and u in p.args and depth < 4 and not p.keywords:
                 # handed to another helper of lexer.py together with the index: the helper's uses are checked instead
-                h = repo.module("lexer").functions[p.func.id]
+                h = repo.full_function("lexer", p.func.id)
                 hp = [a.arg for a in h.args.args]
                 if len(hp) == len(p.args):
                     hs = hp[p.args.index(u)]
@@ -283,7 +283,7 @@ def rule_lazy(repo, res):
 def rule_preserve(repo, res):
     """lex_preserve returns lexeme + char on all paths (white space inside
     comments, quotes and units is kept)."""
-    fn = repo.function("lexer", "lex_preserve")
+    fn = repo.full_function("lexer", "lex_preserve")
     p = [a.arg for a in fn.args.args]
     rets = [n for n in ast.walk(fn) if isinstance(n, ast.Return)]
     res.floor("lex_preserve returns", len(rets), 1)
@@ -301,7 +301,7 @@ def rule_preserve_first(repo, res):
     """PRESERVE-FIRST: inside a comment, quoted string or units expression everything is consumed verbatim: the
     helpers that can open such a state test `preserve["state"]` before they look at the character class."""
     for name in ("lex_char", "lex_singlechar_comments"):
-        fn = repo.function("lexer", name)
+        fn = repo.full_function("lexer", name)
         first = None
         for st in fn.body:
             if isinstance(st, ast.If):
@@ -352,7 +352,7 @@ def rule_lookahead(repo, res):
                                     "outside the dialect's set (END directly followed by binary data raises instead of "
                                     "returning the label)", where=f"pvl/lexer.py:{c.lineno}"))
     res.floor("char_allowed look-ahead tests in lexer() and its helpers", n, 1)
-    lc = repo.function("lexer", "lex_continue")
+    lc = repo.full_function("lexer", "lex_continue")
     params = [a.arg for a in lc.args.args]
     calls = [c for c in ast.walk(lc) if _is_call_to(c, "char_allowed")]
     ok = bool(calls) and all(c.args and norm(c.args[0]) == params[1] for c in calls)
@@ -373,7 +373,7 @@ def rule_preserve_open(repo, res):
     # variable assigned from _next_char(...), along the calls between the functions of lexer.py
     mod = repo.module("lexer")
     role = {}
-    lf = repo.function("lexer", "lexer")
+    lf = repo.full_function("lexer", "lexer")
     start = {norm(a.targets[0]) for a in ast.walk(lf) if isinstance(a, ast.Assign) and _is_call_to(a.value, "_next_char")}
     work = [("lexer", start)]
     seen = set()
@@ -382,16 +382,16 @@ def rule_preserve_open(repo, res):
         if (fname_, frozenset(names)) in seen or fname_ not in mod.functions:
             continue
         seen.add((fname_, frozenset(names)))
-        for c in ast.walk(mod.functions[fname_]):
+        for c in ast.walk(repo.full_function("lexer", fname_)):
             if isinstance(c, ast.Call) and isinstance(c.func, ast.Name) and c.func.id in mod.functions:
-                hp = [a.arg for a in mod.functions[c.func.id].args.args]
+                hp = [a.arg for a in repo.full_function("lexer", c.func.id).args.args]
                 got = {hp[i] for i, a in enumerate(c.args) if i < len(hp) and isinstance(a, ast.Name) and a.id in names}
                 got |= {k.arg for k in c.keywords if k.arg and isinstance(k.value, ast.Name) and k.value.id in names}
                 if got:
                     role.setdefault(c.func.id, set()).update(got)
                     work.append((c.func.id, role[c.func.id]))
     for fname in ("lex_multichar_comments", "lex_singlechar_comments"):
-        fn = repo.function("lexer", fname)
+        fn = repo.full_function("lexer", fname)
         nxts = role.get(fname, set())
         for st, conds in flow.stmts_with_conds(fn.body):
             if not isinstance(st, (ast.Return, ast.Assign)):
